@@ -47,7 +47,7 @@ def step (s : St) : List String → St × List String
           let hadSetup := s.info.setup.isSome
           let (i', rc) := headerin s.info (bos ≠ "0") pkt
           let line := "hdr rc=" ++ ovname rc ++
-            (if rc = 0 ∧ pkt.size > 0 ∧ pkt.get! 0 = 1 then s!" ch={i'.channels} rate={i'.rate} bs0={i'.bs0} bs1={i'.bs1}" else "")
+            (if rc = 0 ∧ pkt.size > 0 ∧ pkt.get! 0 = 1 then s!" ch={i'.channels} rate={i'.rate} bs0={i'.bs0} bs1={i'.bs1} br={i'.brUpper},{i'.brNominal},{i'.brLower}" else "")
           let dump := if rc = 0 ∧ pkt.size > 0 ∧ pkt.get! 0 = 5 ∧ !hadSetup then
               match i'.setup with | some su => dumpSetup i'.channels su | none => [] else []
           ({ s with info := i' }, line :: dump)
